@@ -31,6 +31,15 @@ type ptrCfg struct {
 	resFields [2]string       // names of the (action, cert) fields of the result literal
 	getters   map[string]string // receiver methods that only read a (configuration) field: method -> Lean field
 	paramTypes map[string]string // Go parameter type (as written) -> Lean type; pointer types make the parameter a pointer variable
+	extCalls  map[string]extCall // calls into the environment returning (value, error): source text of the callee -> description
+	ptrRecFields map[string]bool // fields of records that are themselves pointers (e.g. PreviousLocalExitRoot)
+}
+
+// an environment call `v, err := <callee>(args)`: in Lean a field of the receiver record of type `… → Option T` (none = the call
+// returned an error); `ptr`: T is a pointer to a record
+type extCall struct {
+	lean string
+	ptr  bool
 }
 
 type ptrTr struct {
@@ -38,7 +47,9 @@ type ptrTr struct {
 	fset    *token.FileSet
 	recv    string
 	ptrVars map[string]bool
-	kind    string // "result" | "error" | "ptr"
+	kind    string // "result" | "error" | "ptr" | "tuple" | "valerr"
+	errVar  string // name of the error variable bound by the last environment call ("" = none in scope)
+	errSet  bool   // … and whether we are translating the continuation in which that call FAILED
 }
 
 func (t *ptrTr) isPtr(e ast.Expr) bool {
@@ -57,6 +68,9 @@ func (t *ptrTr) isPtr(e ast.Expr) bool {
 		}
 	case *ast.ParenExpr:
 		return t.isPtr(x.X)
+	}
+	if sel, ok := e.(*ast.SelectorExpr); ok && t.cfg.ptrRecFields[sel.Sel.Name] {
+		return true
 	}
 	return false
 }
@@ -94,6 +108,15 @@ func (t *ptrTr) expr(e ast.Expr) (string, error) {
 			return "(pure " + x.Sel.Name + ")", nil
 		}
 		return fmt.Sprintf("(do let v__ ← %s; pure v__.%s)", b, x.Sel.Name), nil
+	case *ast.StarExpr:
+		if !t.isPtr(x.X) {
+			return "", fmt.Errorf("dereference of a non-pointer at %s", t.fset.Position(x.Pos()))
+		}
+		b, err := t.expr(x.X)
+		if err != nil {
+			return "", err
+		}
+		return fmt.Sprintf("(do let p__ ← %s; let v__ ← p__; pure v__)", b), nil
 	case *ast.UnaryExpr:
 		if x.Op != token.NOT {
 			return "", fmt.Errorf("unsupported unary %s", x.Op)
@@ -143,6 +166,9 @@ func (t *ptrTr) expr(e ast.Expr) (string, error) {
 		}
 		return fmt.Sprintf("(do let a__ ← %s; let b__ ← %s; pure %s)", l, r, op), nil
 	case *ast.CallExpr:
+		if id, ok := x.Fun.(*ast.Ident); ok && (id.Name == "uint64" || id.Name == "uint") && len(x.Args) == 1 {
+			return t.expr(x.Args[0])
+		}
 		sel, ok := x.Fun.(*ast.SelectorExpr)
 		if !ok || len(x.Args) != 0 {
 			return "", fmt.Errorf("unsupported call at %s", t.fset.Position(x.Pos()))
@@ -170,6 +196,27 @@ func (t *ptrTr) expr(e ast.Expr) (string, error) {
 
 func (t *ptrTr) ret(s *ast.ReturnStmt) (string, error) {
 	switch t.kind {
+	case "valerr":
+		// (v1, …, vn, error): `some (v1, …)` when the error returned is nil, `none` when it is not
+		n := len(s.Results)
+		last := s.Results[n-1]
+		if id, ok := last.(*ast.Ident); ok && id.Name == t.errVar && t.errVar != "" {
+			if t.errSet {
+				return "(pure none)", nil
+			}
+		} else if !isNil(last) {
+			return "(pure none)", nil // fmt.Errorf(…) or another non-nil error value
+		}
+		var binds, names []string
+		for i, e := range s.Results[:n-1] {
+			x, err := t.expr(e)
+			if err != nil {
+				return "", err
+			}
+			binds = append(binds, fmt.Sprintf("let r%d__ ← %s", i, x))
+			names = append(names, fmt.Sprintf("r%d__", i))
+		}
+		return fmt.Sprintf("(do %s; pure (some (%s)))", strings.Join(binds, "; "), strings.Join(names, ", ")), nil
 	case "tuple":
 		var binds, names []string
 		for i, e := range s.Results {
@@ -293,6 +340,44 @@ func (t *ptrTr) stmts(list []ast.Stmt, depth int) (string, error) {
 		}
 		return "", fmt.Errorf("unsupported expression statement at %s", t.fset.Position(s.Pos()))
 	case *ast.AssignStmt:
+		if s.Tok == token.DEFINE && len(s.Lhs) == 2 && len(s.Rhs) == 1 {
+			// v, err := <environment call>(args): two continuations — the call failed (v is not to be used), the call answered
+			call, ok := s.Rhs[0].(*ast.CallExpr)
+			if !ok {
+				return "", fmt.Errorf("unsupported two-value assignment at %s", t.fset.Position(s.Pos()))
+			}
+			ec, ok := t.cfg.extCalls[nodeStr(t.fset, call.Fun)]
+			if !ok {
+				return "", fmt.Errorf("call to %s is not in the unit's table of environment calls", nodeStr(t.fset, call.Fun))
+			}
+			v, e := s.Lhs[0].(*ast.Ident).Name, s.Lhs[1].(*ast.Ident).Name
+			callee := "(" + t.recv + "." + ec.lean
+			for _, a := range call.Args {
+				x, err := t.expr(a)
+				if err != nil {
+					return "", err
+				}
+				callee += " (← " + x + ")"
+			}
+			callee += ")"
+			savedErr, savedSet, savedPtr := t.errVar, t.errSet, t.ptrVars[v]
+			t.errVar, t.errSet = e, true
+			failB, err := t.stmts(list[1:], depth+2)
+			if err != nil {
+				return "", fmt.Errorf("(continuation after a failed %s) %v", ec.lean, err)
+			}
+			t.errSet = false
+			if ec.ptr {
+				t.ptrVars[v] = true
+			}
+			okB, err := t.stmts(list[1:], depth+2)
+			if err != nil {
+				return "", err
+			}
+			t.errVar, t.errSet = savedErr, savedSet
+			t.ptrVars[v] = savedPtr
+			return fmt.Sprintf("%s(do\n%s  match %s with\n%s  | none =>\n%s\n%s  | some %s =>\n%s)", in, in, callee, in, failB, in, v, okB), nil
+		}
 		if (s.Tok != token.DEFINE && s.Tok != token.ASSIGN) || len(s.Lhs) != 1 || len(s.Rhs) != 1 {
 			return "", fmt.Errorf("unsupported assignment at %s", t.fset.Position(s.Pos()))
 		}
@@ -313,6 +398,14 @@ func (t *ptrTr) stmts(list []ast.Stmt, depth int) (string, error) {
 		}
 		return fmt.Sprintf("%s(do\n%s  let %s ← %s\n%s)", in, in, name, v, rest), nil
 	case *ast.IfStmt:
+		if t.errVar != "" && s.Init == nil && s.Else == nil {
+			if be, ok := s.Cond.(*ast.BinaryExpr); ok && be.Op == token.NEQ && exprString(be.X) == t.errVar && isNil(be.Y) {
+				if t.errSet {
+					return t.stmts(append(append([]ast.Stmt{}, s.Body.List...), list[1:]...), depth)
+				}
+				return t.stmts(list[1:], depth)
+			}
+		}
 		if vars, ok := assignOnly(s); ok && s.Init == nil {
 			// an `if` that only assigns local variables: the variables it may change are re-bound to the branch's result
 			c, err := t.expr(s.Cond)
@@ -656,6 +749,91 @@ func flowBaseUnit(repo string, w *strings.Builder) error {
 		return fmt.Errorf("baseFlow.getLastSentBlockAndRetryCount not found (renamed or removed?)")
 	}
 	src, err := t.fn(fd, "tuple", "(Nat × Nat)")
+	if err != nil {
+		return err
+	}
+	w.WriteString(src + "\n")
+	return nil
+}
+
+// unit NextHeight: aggsender/flows/flow_base.go getNextHeightAndPreviousLER — height and previous exit root of the next certificate
+func nextHeightUnit(repo string, w *strings.Builder) error {
+	_, tf, err := parseOne(repo, "agglayer/types/types.go")
+	if err != nil {
+		return err
+	}
+	sts := iotaConsts(tf, "CertificateStatus")
+	if len(sts) == 0 {
+		return fmt.Errorf("CertificateStatus constants not found")
+	}
+	for i, s := range sts {
+		fmt.Fprintf(w, "def %s : Nat := %d\n", s, i)
+	}
+	// IsOpen = membership in NonSettledStatuses; IsClosed = !IsOpen; the two equality predicates are translated
+	var open []string
+	for _, d := range tf.Decls {
+		gd, ok := d.(*ast.GenDecl)
+		if !ok || gd.Tok != token.VAR {
+			continue
+		}
+		for _, sp := range gd.Specs {
+			vs := sp.(*ast.ValueSpec)
+			for i, n := range vs.Names {
+				if n.Name == "NonSettledStatuses" && i < len(vs.Values) {
+					if cl, ok := vs.Values[i].(*ast.CompositeLit); ok {
+						for _, e := range cl.Elts {
+							open = append(open, exprString(e))
+						}
+					}
+				}
+			}
+		}
+	}
+	if len(open) == 0 {
+		return fmt.Errorf("NonSettledStatuses not found")
+	}
+	fsetT, _, _ := parseOne(repo, "agglayer/types/types.go")
+	_ = fsetT
+	for name, want := range map[string]string{"IsOpen": "return slices.Contains(NonSettledStatuses, c)", "IsClosed": "return !c.IsOpen()"} {
+		fd := findFunc(tf, "CertificateStatus", name)
+		fs, af2, _ := parseOne(repo, "agglayer/types/types.go")
+		fd = findFunc(af2, "CertificateStatus", name)
+		if fd == nil || len(fd.Body.List) != 1 || nodeStr(fs, fd.Body.List[0]) != want {
+			return fmt.Errorf("CertificateStatus.%s is no longer `%s`", name, want)
+		}
+	}
+	fmt.Fprintf(w, "def CertificateStatus_IsOpen (c : Nat) : Bool := [%s].contains c\n", strings.Join(open, ", "))
+	w.WriteString("def CertificateStatus_IsClosed (c : Nat) : Bool := !(CertificateStatus_IsOpen c)\n")
+	for _, m := range []string{"IsInError", "IsSettled"} {
+		fd := findFunc(tf, "CertificateStatus", m)
+		if fd == nil {
+			return fmt.Errorf("CertificateStatus.%s not found", m)
+		}
+		tr := &translator{known: map[string]bool{}}
+		src, err := tr.fn(fd)
+		if err != nil {
+			return fmt.Errorf("CertificateStatus.%s: %v", m, err)
+		}
+		w.WriteString(strings.Replace(src, "(c : CertificateStatus)", "(c : Nat)", 1))
+	}
+	w.WriteString("\n")
+	fset, af, err := parseOne(repo, "aggsender/flows/flow_base.go")
+	if err != nil {
+		return err
+	}
+	t := &ptrTr{fset: fset, cfg: ptrCfg{recvType: "baseFlowEnv", ptrFields: set(), ptrFns: set(), errFns: set(), skipCalls: set(),
+		valMeths: map[string]string{"IsInError": "CertificateStatus_IsInError", "IsSettled": "CertificateStatus_IsSettled",
+			"IsClosed": "CertificateStatus_IsClosed", "IsOpen": "CertificateStatus_IsOpen"},
+		getters:      map[string]string{},
+		paramTypes:   map[string]string{"*types.CertificateHeader": "Option FullHdr"},
+		ptrRecFields: set("PreviousLocalExitRoot"),
+		extCalls: map[string]extCall{"f.getStartLER": {lean: "getStartLER"},
+			"f.storage.GetCertificateHeaderByHeight": {lean: "headerByHeight", ptr: true}}}}
+	fd := findFunc(af, "baseFlow", "getNextHeightAndPreviousLER")
+	if fd == nil {
+		return fmt.Errorf("baseFlow.getNextHeightAndPreviousLER not found (renamed or removed?)")
+	}
+	src, err := t.fn(fd, "valerr", "(Option (Nat × Nat))")
 	if err != nil {
 		return err
 	}
